@@ -2,7 +2,7 @@
 
 For every molecule with <= 6 heavy atoms: ALL permutations of the heavy atoms,
 as a SMILES string (order-controlling writer) and as a renumbered molecule
-object; for molecules with <= 5 (8) atoms in total (+ ethene and methanol) ALL permutations of all
+object; for molecules with <= 5 (7) atoms in total (+ ethene and methanol; thorough: + ethane, 8 atoms) ALL permutations of all
 atoms, hydrogens included, on the molecule-object path; for larger curated
 molecules all injective placements of every k-subset (k <= 2 quick, 3
 thorough) of heavy atoms; plus input forms (explicit hydrogens, Kekule vs
@@ -31,7 +31,7 @@ BOUND = {
              '<= 5 atoms, ethene and methanol; placements of all 1- and 2-subsets for molecules '
              'with 6 heavy atoms and 4 larger ones; input forms on all 6 distinct schemes',
     'thorough': 'all permutations up to 6 heavy atoms, on all 6 distinct scheme files, all-atom '
-                'permutations for <= 8 atoms, placements of all 3-subsets'}
+                'permutations for <= 7 atoms and ethane, placements of all 3-subsets'}
 RULE = ('every spelling/renumbering in the stated space is decomposed and '
         'compared with the canonical spelling of the same molecule; '
         'non-trivial = the spelling differs from the canonical one and the '
@@ -205,8 +205,9 @@ def run_perms(R, name, smi, tier, only=None, stride=None):
             break
     # all atoms, hydrogens included, on the object path
     mh = Chem.AddHs(M.m)
-    lim = 5 if tier == 'quick' else 8
-    if (2 <= mh.GetNumAtoms() <= lim or M.canon in ('C=C', 'CO')) and only is None:
+    lim = 5 if tier == 'quick' else 7
+    if (2 <= mh.GetNumAtoms() <= lim or M.canon in ('C=C', 'CO') or
+            (tier == 'thorough' and M.canon == 'CC')) and only is None:
         for order in itertools.permutations(range(mh.GetNumAtoms())):
             if not check_variant(R, name, S, M, base, 'object-allatoms',
                                  Chem.RenumberAtoms(mh, list(order)), list(order)):
